@@ -109,6 +109,9 @@ def run_model(T, case, values):
         except C.ModelLimit as e:
             out = ("limit", e)
         except Exception as e:  # noqa: BLE001
+            acc = C.internal_error(e)
+            if acc is not None:
+                raise C.Unsupported("accident inside the model: " + acc) from e
             out = ("raise", e)
         finally:
             for u in undo:
